@@ -75,6 +75,7 @@ def run(pid, tier, seed):
         procs.append((fp, vc.Proc([binary, "rc", "0", "0", fp], env=env)))
     bfs_fp = os.path.join(root, "fail-bfs.txt")
     procs.append((bfs_fp, vc.Proc([binary, "bfs", str(nkeys), bfs_fp])))
+    procs.append((os.path.join(root, "fail-spine.txt"), vc.Proc([binary, "spine", os.path.join(root, "fail-spine.txt")])))
     tot = {"cases": 0, "ops": 0, "nontrivial": 0, "audits": 0, "replaced": 0, "absent_lookup": 0, "removes_hit": 0,
            "lower_calls": 0, "clears": 0, "recycled": 0}
     per_cmp = {"int": 0, "charp": 0, "voidp": 0, "ptr": 0}
